@@ -18,7 +18,7 @@ from mc.gen.atoms import LIT1
 
 PROP = "C16"
 
-U64 = [0, 1, 7, 8, 255, 256, 1 << 32, (1 << 64) - 1]
+U64 = [0, 1, 7, 8, 255, 256, 43981, 1 << 32, (1 << 64) - 1]
 U8 = [0, 1, 8, 255]
 BYTES: List[Tuple[str, bytes]] = [
     ("0x0102", b"\x01\x02"),
@@ -53,7 +53,7 @@ BYTES: List[Tuple[str, bytes]] = [
 
 
 def int_spellings(v: int) -> List[str]:
-    out = [str(v), hex(v)]
+    out = [str(v), hex(v), "0x" + format(v, "X")]
     out.append("0" + oct(v)[2:] if v else "00")
     return out
 
@@ -244,6 +244,9 @@ LAYOUTS = [
     lambda l: "  " + l.replace(" ", "  ") if '"' not in l else "  " + l,
     lambda l: l.replace(" ", "\t") if '"' not in l else l + "\t",
     lambda l: l + " //",
+    lambda l: l + " // jumps to the label below:",
+    lambda l: l + " // int 1; pop // b L0",
+    lambda l: l + "\t//#pragma version 2",
 ]
 UNKNOWN = ["foo", "txnx Fee", "int64 5", "bsqrtx", "gloadsss", "dup3", "Int 5", "global_x", "app_global_get_exx 1", "switchx L0", "pushintz 1"]
 
@@ -394,7 +397,7 @@ def worker(item: Any, res: runner.Result) -> None:  # pylint: disable=too-many-l
                 res.violation("C16.source-code-not-kept", item, line=l2, kept=ins.source_code)
         elif base_str is not None and printed != base_str:
             res.violation("C16.layout-changes-instruction", item, line=l2, printed=printed, base=base_str)
-        if "//" in l2 and li in (4, 5, 8):
+        if "//" in l2 and li in (4, 5, 8, 9, 10):
             c = l2[l2.index("//") :] if '"' not in line else None
             if c is not None and ins.comment != c:
                 res.violation("C16.comment-not-kept", item, line=l2, comment=ins.comment)
@@ -432,7 +435,7 @@ def main(argv: List[str]) -> int:
         "evaluations": c.get("lines_parsed", 0),
         "rule": "every opcode of the v1-v8 table x every field of its group x immediate spellings (uint64 in decimal/hex/octal incl. "
         "2^64-1, named constants, 19 byte-string spellings incl. base64/base32 in four syntaxes and quoted strings with spaces, //, "
-        "escapes; label names that are opcode names) x 9 whitespace/comment layouts; unknown opcodes x 5 layouts; line numbers; "
+        "escapes; label names that are opcode names) x 12 whitespace/comment layouts; unknown opcodes x 5 layouts; line numbers; "
         "every ordered pair of base lines parsed one after the other in one process (history independence of parse_line); every "
         "base line inside a program through parse_teal (first and second instruction); distinct = base line; non-trivial = all",
         "ordered_pairs": c.get("ordered_pairs", 0),
